@@ -44,3 +44,22 @@ Theorem C17_returned_then_unchanged_skipped : forall pre cfg now world cfg' now'
   ~ In d (nth (S (length pre)) (scan_run (pre ++ (cfg, now, world) :: (cfg', now', world') :: post) []) []).
 Proof. exact returned_then_unchanged_skipped. Qed.
 Print Assumptions C17_returned_then_unchanged_skipped.
+
+(* ---- the queue cache (cache/local.go) is where "the version returned last" lives ---- *)
+From STS Require Import Model.Cache Proofs.CacheP.
+
+(* after Add the entry IS the version that was added - size, mtime, the store's private
+   data (link target) and hash - and it counts as confirmed only if the entry it replaces
+   was confirmed and is the same version *)
+Theorem C17_cache_records_the_version_added : forall c n size time meta hash,
+  exists d, cget n (c_mem (cadd c n size time meta hash)) = Some (mkce size time meta hash d) /\
+    (d = true <->
+     exists e, cget n (c_mem c) = Some e /\ ce_done e = true /\
+       ce_size e = size /\ ce_time e = time /\ (hash = [] \/ ce_hash e = hash)).
+Proof. exact add_records_version. Qed.
+Print Assumptions C17_cache_records_the_version_added.
+
+Theorem C17_cache_add_touches_one_entry : forall c n size time meta hash n0,
+  n0 <> n -> cget n0 (c_mem (cadd c n size time meta hash)) = cget n0 (c_mem c).
+Proof. exact add_other_untouched. Qed.
+Print Assumptions C17_cache_add_touches_one_entry.
